@@ -69,7 +69,7 @@ macro_rules! with_type {
             }
             "signingkey" => {
                 let a: [u8; 32] = b.try_into().unwrap_or_else(|_| panic!("ARG: len"));
-                Some($f(&SigningKey::from_bytes(&a), |x: &SigningKey| x.to_bytes().to_vec(), $($extra),*))
+                Some($f(&SigningKey::from_bytes(&a), |x: &SigningKey| x.to_keypair_bytes().to_vec(), $($extra),*))
             }
             "verifyingkey" => {
                 let a: [u8; 32] = b.try_into().unwrap_or_else(|_| panic!("ARG: len"));
@@ -106,6 +106,36 @@ fn roundtrip<T: Serialize + DeserializeOwned>(v: &T, enc: impl Fn(&T) -> Vec<u8>
     o
 }
 
+/// `Deserialize::deserialize_in_place` over an existing value (what serde does for elements of containers it reuses)
+fn de_in_place<T: DeserializeOwned>(fmt: &str, payload: &[u8], place: &mut T) -> bool {
+    match fmt {
+        "bin" => {
+            let mut d = bincode::Deserializer::from_slice(
+                payload,
+                bincode::DefaultOptions::new().with_fixint_encoding().allow_trailing_bytes(),
+            );
+            serde::Deserialize::deserialize_in_place(&mut d, place).is_ok()
+        }
+        "json" => {
+            let mut d = serde_json::Deserializer::from_slice(payload);
+            serde::Deserialize::deserialize_in_place(&mut d, place).is_ok() && d.end().is_ok()
+        }
+        _ => panic!("ARG: fmt"),
+    }
+}
+
+fn inplace<T: DeserializeOwned>(place: &T, enc: impl Fn(&T) -> Vec<u8>, fmt: &str, payload: &[u8]) -> Out
+where
+    T: Clone,
+{
+    let mut v = place.clone();
+    if de_in_place(fmt, payload, &mut v) {
+        vec!["ok".into(), hex(&enc(&v))]
+    } else {
+        vec!["err".into()]
+    }
+}
+
 fn de_only<T: DeserializeOwned>(fmt: &str, payload: &[u8], enc: impl Fn(&T) -> Vec<u8>) -> Out {
     match de::<T>(fmt, payload) {
         Some(w) => vec!["ok".into(), hex(&enc(&w))],
@@ -135,12 +165,23 @@ pub fn register(m: &mut HashMap<&'static str, OpFn>) {
             "ristretto" => de_only::<RistrettoPoint>(fmt, &p, |x| x.compress().to_bytes().to_vec()),
             "cristretto" => de_only::<CompressedRistretto>(fmt, &p, |x| x.to_bytes().to_vec()),
             "montgomery" => de_only::<MontgomeryPoint>(fmt, &p, |x| x.to_bytes().to_vec()),
-            "signingkey" => de_only::<SigningKey>(fmt, &p, |x| x.to_bytes().to_vec()),
+            "signingkey" => de_only::<SigningKey>(fmt, &p, |x| x.to_keypair_bytes().to_vec()),
             "verifyingkey" => de_only::<VerifyingKey>(fmt, &p, |x| x.to_bytes().to_vec()),
             "signature" => de_only::<Signature>(fmt, &p, |x| x.to_bytes().to_vec()),
             "xpublic" => de_only::<PublicKey>(fmt, &p, |x| x.to_bytes().to_vec()),
             "xstatic" => de_only::<StaticSecret>(fmt, &p, |x| x.to_bytes().to_vec()),
             _ => panic!("ARG: type"),
+        }
+    });
+    // sd.inplace <type> <fmt> <payload> <native bytes of the value that is overwritten>
+    m.insert("sd.inplace", |a| {
+        let ty = a.tok(0);
+        let fmt = a.tok(1).to_string();
+        let p = a.bytes(2);
+        let place = a.bytes(3);
+        match with_type!(ty, &place, inplace, &fmt, &p) {
+            Some(o) => o,
+            None => vec!["native-reject".into()],
         }
     });
 }
